@@ -23,6 +23,7 @@ META = {
                     'only reported after its real hashes were compared in the replay)'],
 }
 META['bounds'].append('exchange rates built under 3 pairs of default rounding modes')
+META['bounds'].append('rate hashed before and after the change of the default mode')
 
 
 def setup(mode):
